@@ -313,20 +313,6 @@ Definition sync_rollback (backend : chain) (hdr : headers) (w : wallet) : result
   | _ => fail w
   end.
 
-(** syncWithChain up to the rescan request, as one attempt of waitForSync.
-    [first] = the [birthdayStamp] argument is nil: birthdaySanityCheck found no
-    stored birthday block when the backend connected.  waitForSync passes the
-    SAME argument to every repetition of a failed attempt, so [first] does
-    not follow [birthday_set] once the first-synchronisation Update of an
-    earlier attempt has committed.  With [first]: the first-synchronisation
-    Update, then the rollback Update; the two are separate transactions, a
-    failure of the second keeps what the first stored. *)
-Definition startup (first : bool) (backend : chain) (hdr : headers) (loc : bmeta) (w : wallet) : result :=
-  if first then
-    let '(w1, e1) := first_sync backend hdr loc w in
-    if e1 then (w1, true) else sync_rollback backend hdr w1
-  else sync_rollback backend hdr w.
-
 (** [catchUpHashes] (RescanProgress / RescanFinished): SetSyncedTo for every
     height above the synced one up to [height] (hash from GetBlockHash, time
     from GetBlockHeader), inside one Update.  [bs] are the backend's blocks
@@ -358,6 +344,64 @@ Definition catch_up (backend : chain) (hdr : headers) (height : Z) (w : wallet) 
       | Some w' => ok w'
       | None => fail w
       end.
+
+(** [Wallet.recovery] (only with a recovery window), reduced to what
+    matters here: for the backend's blocks above the synced-to block, up to
+    the backend's best height, the wallet transactions the block filter finds
+    in them are recorded (addRelevantTx; blocks below the birthday block are
+    not filtered) and SetSyncedTo is called block by block - in batches of
+    recoveryBatchSize blocks, one Update each.  The model makes it one
+    transaction: SetSyncedTo can only fail for the first block (its
+    predecessor is the synced-to block; every later predecessor has just been
+    stored), so either nothing or everything commits.  [txs] = the wallet
+    transactions of the backend's chain, in chain order (which those are is
+    property C16's business). *)
+Definition rtx := (N * bool * bmeta)%type.
+Definition insert_all (txs : list rtx) (w : wallet) : wallet :=
+  fold_left (fun w x => insert_tx x.1.1 x.1.2 (Some x.2) w) txs w.
+Definition scanned (w : wallet) (x : rtx) : bool :=
+  (m_height (synced w) <? m_height x.2) &&
+  (negb (birthday_set w) || (m_height (bday w) <=? m_height x.2)).
+Definition recover (backend : chain) (hdr : headers) (txs : list rtx) (w : wallet) : result :=
+  let best := tip_height backend in
+  if best <=? m_height (synced w) then ok w                (* empty loop *)
+  else
+    match catch_up backend hdr best (insert_all (filter (fun x => scanned w x) txs) w) with
+    | (w', false) => ok w'
+    | (_, true) => fail w
+    end.
+
+(** syncWithChain up to the rescan request, as one attempt of waitForSync.
+    [first] = the [birthdayStamp] argument is nil: birthdaySanityCheck found no
+    stored birthday block when the backend connected.  waitForSync passes the
+    SAME argument to every repetition of a failed attempt, so [first] does
+    not follow [birthday_set] once the first-synchronisation Update of an
+    earlier attempt has committed.  With [first]: the first-synchronisation
+    Update, then the rollback Update; the two are separate transactions, a
+    failure of the second keeps what the first stored. *)
+Definition startup (first : bool) (backend : chain) (hdr : headers) (loc : bmeta) (w : wallet) : result :=
+  if first then
+    let '(w1, e1) := first_sync backend hdr loc w in
+    if e1 then (w1, true) else sync_rollback backend hdr w1
+  else sync_rollback backend hdr w.
+
+(** The same for a wallet opened with a recovery window ([rec]): recovery runs
+    between the first synchronisation and the rollback loop
+    ([rec_first] = Generated.SyncFacts.recovery_before_rollback, the order of
+    the two in the source) - or after the loop.  Each stage is its own
+    transaction; a failing stage ends the attempt and keeps the earlier ones. *)
+Definition startup_rec_with (rec_first first rec : bool) (backend : chain) (hdr : headers)
+    (loc : bmeta) (txs : list rtx) (w : wallet) : result :=
+  let s1 := if first then first_sync backend hdr loc w else ok w in
+  if s1.2 then s1
+  else if negb rec then sync_rollback backend hdr s1.1
+  else if rec_first then
+    let s2 := recover backend hdr txs s1.1 in
+    if s2.2 then s2 else sync_rollback backend hdr s2.1
+  else
+    let s2 := sync_rollback backend hdr s1.1 in
+    if s2.2 then s2 else recover backend hdr txs s2.1.
+Definition startup_rec := startup_rec_with recovery_before_rollback.
 
 (** RescanFinished: catch up, then mark the wallet synced (whatever the
     catch-up returned). *)
